@@ -1,0 +1,6 @@
+//go:build !verif
+
+package client
+
+// verifPause is a no-op unless built with the "verif" tag.
+func verifPause(string) {}
